@@ -52,7 +52,7 @@ def run(ctx):
                        'ctx.precision and ctx.rounding (provenance + backward dependence from the return place). R-TABLE: negative -> None, '
                        'zero -> zero, and impl_sqrt is reached only under the non-negative arm. R-SIGN: no re-signing after a context-mode rounding '
                        '(copy-sign variant exempt by specification). R-STICKY: the radicand must be consulted again after the integer root so that '
-                       'inexactness can reach the rounding decision. NOT decided: the digits of the root (including the parity defect).')
+                       'inexactness can reach the rounding decision. ROOT-SHAPE (path terms of impl_sqrt): PARITY - scale + E is even on every path for the radicand n*10^E (parity abstraction, both branches of saturating_sub); STICKY - the bare floor root r is rounded only where r*r == R, otherwise r*10 + d with a non-zero digit d; COUNTED - the digits counted for the result scale are those of the integer constructed. NOT decided: the digits of the integer root itself, the result-scale formula (derived from the digit counts via a decimal division).')
     F = ctx.facts('default', 'rel')
     fns = roots.family(F, r'sqrt')
     rep.entries['sqrt family'] = [f.key for f in fns]
@@ -65,6 +65,9 @@ def run(ctx):
     rep.floor('kernel gateways', nkg, 1)
     n4 = S.sticky(rep, F, fns)
     S.radicand_exact(rep, F, fns)
+    from rules import rootshape
+    nrs = rootshape.check_sqrt(rep, F)
+    rep.floor('root-shape obligations (parity, sticky digit, counted digits)', nrs, 3)
     rep.floor('PROV-CTX final sinks', n1, 5)
     rep.floor('sign table paths', n3, 6)
     rep.floor('integer-root sites', n4, 1)
